@@ -219,7 +219,19 @@ class DirAdapter(MergeAdapter):
 
 FIELD_GROUP = {"ngs": "properties", "ggs": "properties", "nd": "properties", "gd": "properties", "vel": "velocity",
                "meta": "file-metadata", "pdose": "file-metadata", "files": "file-metadata", "fw": "chi", "labels": "labels",
-               "nucs": "nuclides", "alive": "consumed"}
+               "nucs": "nuclides", "alive": "consumed", "ids": "per-id-view"}
+ASBUILT_FIELDS = ("nd", "ngs", "vel", "ggs", "gd")
+
+
+def beyond_known_partial(asb, expected_target, observed_target):
+    """D1 (known finding) stated exactly: after a refused merge the five library-level properties are either untouched (the
+    property) or in the state TLC prints as AsBuiltProps (what _mergeProperties has assigned before the refusal).  True when
+    the real target is in neither state: a different violation, which must not hide behind the known one."""
+    if not isinstance(asb, dict) or "none" in asb or not isinstance(observed_target, dict) or not observed_target.get("alive"):
+        return False
+    obs = {f: observed_target.get(f) for f in ASBUILT_FIELDS}
+    return obs != {f: expected_target.get(f) for f in ASBUILT_FIELDS} and obs != {f: asb.get(f) for f in ASBUILT_FIELDS}
+
 
 
 def merge_key(div):
@@ -233,6 +245,8 @@ def merge_key(div):
         return "merge:%s:exception:%s" % (a["n"], m.group(1) if m else "?")
     if path == ".err":
         return "merge:%s:outcome" % a["n"]
+    if div.get("beyond"):
+        return "merge:%s:%s:target:properties-not-the-known-partial-merge" % (a["n"], div.get("kind", ""))
     parts = [p for p in re.sub(r"\[\d+\]", "", path).split(".") if p]
     who = parts[0] if parts else "?"
     field = parts[1] if len(parts) > 1 else "?"
@@ -266,6 +280,12 @@ def _replay_chunk(idxs):
         d = rp.run_behaviour(ad, root, pre + [e], check_from=len(pre))
         if d:
             d["kind"] = e["err"]          # the refusal kind the specification gives this edge ("" = accepted)
+            if e["err"] and isinstance(d.get("observed"), dict):
+                d["beyond"] = beyond_known_partial(e.get("asb"), e["obs"].get("target", {}), d["observed"].get("target"))
+                if d["beyond"]:
+                    d["first_difference"] = "library-level properties after the refusal are %s: neither untouched %s nor the known partial merge %s" % (
+                        json.dumps({f: d["observed"]["target"].get(f) for f in ASBUILT_FIELDS}),
+                        json.dumps({f: e["obs"]["target"].get(f) for f in ASBUILT_FIELDS}), json.dumps(e["asb"]))
         out.append((i, d))
     return out
 
@@ -491,8 +511,12 @@ def trace_verdicts(bad):
         elif exp:
             act = {"n": "MergeRefused" if exp["err"] else "Merge", "t": a.get("t"), "o": a.get("o")}
             go = shape_obs(post.get("libs", []), post.get("err"), act)
-            why = rp.diff(shape_obs(exp["libs"], exp["err"], act, expected=True), go) or ".?: recorded state is not the specification's"
-            key = merge_key({"action": act, "first_difference": why, "kind": exp["err"]})
+            eo = shape_obs(exp["libs"], exp["err"], act, expected=True)
+            why = rp.diff(eo, go) or ".?: recorded state is not the specification's"
+            beyond = bool(exp["err"]) and beyond_known_partial(exp.get("asb"), eo.get("target", {}), go.get("target"))
+            if beyond:
+                why = "library-level properties after the refusal are neither untouched nor the known partial merge %s: %s" % (json.dumps(exp["asb"]), why)
+            key = merge_key({"action": act, "first_difference": why, "kind": exp["err"], "beyond": beyond})
         else:
             key, why = "trace:merge:unmatched", "no step of the specification matches"
         out.append((key, "recorded merge history %s is not a behaviour of LibraryMerge at event %d (%s): %s" % (
@@ -544,25 +568,33 @@ def macro_key(case, quantity, exp, got):
         symptom = "value"
     if case["empty"]:
         return "macro:empty-composition:%s" % quantity.split(".")[0]
-    q = re.sub(r"^(direct|creator)\.rx\..*$", r"\1.rx", quantity)
+    q = re.sub(r"^(\w+)\.rx\..*$", r"\1.rx", quantity)
     return "macro:%s:%s" % (q, symptom)
 
 
-def check_macro_case(world, table, case, empty_dict=False):
+CREATOR_CALLS = ("creator", "gcreator", "names", "minimum")
+
+
+def check_macro_case(world, mult_world, table, case, empty_dict=False):
     """-> list of (key, text, payload)"""
     exp = G.expected_macro(case, table)
-    got = G.run_macro_case(world, case, empty_dict=empty_dict)
+    got = G.run_macro_case(world, case, mult_world, empty_dict=empty_dict)
     out = []
-    creator_failed = False
+    failed = set()
     for q, e in exp.items():
-        if q not in got:
-            if creator_failed:
-                continue               # createMacrosFromMicros raised (or was refused): one verdict for the call, not one per field
-            creator_failed = True
-            o, q0 = got.get("creator", "missing"), "creator"
-            e = "refused" if case["refused"] else "the macroscopic collection"
-        else:
+        call = q.split(".")[0]
+        if q in got:
             o, q0 = got[q], q
+        elif call in CREATOR_CALLS:
+            # that createMacrosFromMicros call raised / was refused (reported under the bare prefix), or was expected to be
+            # refused and was not (its fields are there): one verdict per call, not one per field
+            if call in failed:
+                continue
+            failed.add(call)
+            o, q0 = (got[call], call) if call in got else ("the macroscopic collection", call)
+            e = e if q == call else "the macroscopic collection"
+        else:
+            o, q0 = "missing", q
         d = rp.diff(e, o, rtol=MACRO_RTOL)
         if d:
             out.append((macro_key(case, q0, e, o), "%s for composition %s (suffix %s, table %d%s): expected %s, observed %s" % (
@@ -575,11 +607,12 @@ def check_macro_case(world, table, case, empty_dict=False):
 
 def check_total_scatter(world, table, v):
     out = []
-    for i, e in enumerate(table["entries"]):
+    for i, rad in [(i, rad) for i in range(len(table["entries"])) for rad in ("n", "g")]:
+        e = table["entries"][i][rad]
         lacking = [k for k, h in zip(table["scatKinds"], e["hasScat"]) if not h]
-        payload = {"direction": "replay", "part": "totalScatter", "table": table, "entry": i}
+        payload = {"direction": "replay", "part": "totalScatter", "table": table, "entry": i, "radiation": rad}
         try:
-            got = world.micro_total_scatter(i)
+            got = world.micro_total_scatter(i, rad)
         except Exception as ex:  # noqa: BLE001  a legal query that raises is an observation
             out.append(("totalScatter:micro:exception:%s:lacking-%s" % (type(ex).__name__, "n2nScatter" if "n2nScatter" in lacking else "+".join(lacking) or "nothing"),
                         "XSCollection.getTotalScatterMatrix raised %s: %s on a nuclide without %s" % (type(ex).__name__, ex, lacking), payload))
@@ -589,6 +622,14 @@ def check_total_scatter(world, table, v):
             out.append(("totalScatter:micro:value:lacking-%s" % ("+".join(lacking) or "nothing"),
                         "XSCollection.getTotalScatterMatrix of table %d entry %d: %s" % (v, i, d), payload))
     return out
+
+
+def _macro_worlds(thorough):
+    """For --replay: the tables are re-printed by TLC (a multLib case needs the library of another table of the same tier)."""
+    res = tlc.run("Macros_mc", "Macros_emit%s.cfg" % ("_thorough" if thorough else ""), MODDIR, workers=1, coverage=False, timeout=3000)
+    tables = {p["table"]: p for p in res.prints if isinstance(p, dict) and "table" in p}
+    wd = common.workdir("c10-macro")
+    return {v: G.MacroWorld(tb, wd) for v, tb in tables.items()}
 
 
 def run_macros(rep, thorough, seed, results):
@@ -610,17 +651,18 @@ def run_macros(rep, thorough, seed, results):
         for empty_dict in [False] + ([True] if c["empty"] else []):     # the empty composition also as an empty dict
             n += 1
             nontrivial += 0 if (c["empty"] or c["refused"]) else 1
-            for key, text, payload in check_macro_case(worlds[c["v"]], tables[c["v"]], c, empty_dict):
+            for key, text, payload in check_macro_case(worlds[c["v"]], worlds[tables[c["v"]]["multTable"]], tables[c["v"]], c, empty_dict):
                 rep.violation(key, text, payload)
     if nontrivial == 0:
         raise tlc.MachineryError("vacuous: no macro case with a non-empty, accepted composition")
     rep.add_replay("macro-cases", n, nontrivial,
                    "every (table, suffix, composition) TLC enumerates is given to computeMacroscopicGroupConstants (7 reactions, nuSigF, "
-                   "total, transport), the neutron/gamma energy-deposition and fission/capture energy-generation functions and to "
-                   "MacroscopicCrossSectionCreator on a real HexBlock; non-trivial = neither empty nor refused")
+                   "total, transport; neutron and gamma collections; with a distinct multLib), the neutron/gamma energy-deposition and "
+                   "fission/capture energy-generation functions and to MacroscopicCrossSectionCreator on a real HexBlock (libType micros "
+                   "and gammaXS, with nucNames, with minimumNuclideDensity); non-trivial = neither empty nor refused")
     m = 0
     for v, w in worlds.items():
-        m += len(tables[v]["entries"])
+        m += 2 * len(tables[v]["entries"])
         for key, text, payload in check_total_scatter(w, tables[v], v):
             rep.violation(key, text, payload)
     rep.add_replay("micro-total-scatter", m, m, "XSCollection.getTotalScatterMatrix on every generated nuclide against the table's sum")
@@ -628,7 +670,7 @@ def run_macros(rep, thorough, seed, results):
     if ok:
         c = ok[len(ok) // 2]
         rep.sample({"kind": "macro-case", "table": c["v"], "suffix": c["sfx"], "composition": c["comp"],
-                    "expected": {k: c["exp"][k] for k in ("absorption", "removal", "nuSigF")}})
+                    "expected": {k: c["n"][k] for k in ("absorption", "removal", "nuSigF")}})
 
 
 def run(rep, tier, seed):
@@ -654,6 +696,14 @@ def run(rep, tier, seed):
         "leaves a library that is no longer what its source gave; keys ...:other:...)",
         "a refusal is any of ImmutablePropertyError (group structures / dose factors), OSError (file metadata), AttributeError or "
         "numpy's ValueError (same kind of data for one label); which one is raised when several conflicts coexist is not compared",
+        "the per-id view of a library (getNuclides(id)) holds the nuclides whose label ENDS with the id; the label domain has an "
+        "id (NA) that is a substring of a label of another id (NA23AA)",
+        "known finding D1, stated exactly: after a refused merge the five library-level properties (dose factors, energy "
+        "structures, velocity) are either untouched or in the state AsBuiltProps TLC prints (what _mergeProperties assigns "
+        "before the refusal); any other state is reported under ...:properties-not-the-known-partial-merge",
+        "createMacrosFromMicros: the composition is the block's restricted to nucNames and to densities above "
+        "minimumNuclideDensity, for every field; libType gammaXS = every field from the gamma collection; a multLib provides "
+        "the multipliers only",
         "directory merge: ids in the order of the sorted ISOxx names; an id whose ISOxx path is already in the library's fileNames "
         "is skipped with its gamma files; a refused directory merge is compared on the refusal only (a loop of merges that "
         "stopped); of a dummy nuclide's synthesised entries only their existence is observed",
@@ -691,8 +741,9 @@ def replay(payload):
             print("no divergence: the re-recorded history is a behaviour of LibraryMerge")
         return 1 if bad else 0
     if part == "macros":
-        w = G.MacroWorld(payload["table"], common.workdir("c10-macro"))
-        out = [x for x in check_macro_case(w, payload["table"], payload["case"], payload.get("empty_dict", False))]
+        worlds = _macro_worlds(payload.get("tier") == "thorough")
+        t = payload["table"]
+        out = check_macro_case(worlds[t["table"]], worlds[t["multTable"]], t, payload["case"], payload.get("empty_dict", False))
         for key, text, _p in out:
             print(key, "\n ", text)
         if not out:
@@ -913,6 +964,32 @@ def selftest():
     dir_reference_never_set = resourced(dirmerge, "if not referenceDummyNuclides:", "if False:")
     dir_merges_unsorted_last_first = resourced(dirmerge, "for xsLibFilePath in sorted(xsLibFiles):", "for xsLibFilePath in sorted(xsLibFiles, reverse=True):")
 
+    # ---- third seeding round ----
+    def get_nuclides_suffix_anywhere(self, suffix):
+        nucs = []
+        for nucLabel, nuc in self.items():
+            if not suffix or suffix in nucLabel:          # the id is looked for in the whole label, not in its last two characters
+                if nuc not in nucs:
+                    nucs.append(nuc)
+        return nucs
+
+    MC = xsCollections.MacroscopicCrossSectionCreator
+    basic_xs_nusigf_always_neutron = resourced(MC._convertBasicXS, "libType=libType,\n            multConstant=NU,",
+                                               "libType=\"micros\",\n            multConstant=NU,")
+    scatter_from_block_densities = resourced(MC._convertScatterMatrices, "self.densities.get(nuclide.name, 0.0)",
+                                             "self.block.getNumberDensity(nuclide.name)")
+    cmgc_multiplier_from_lib = resourced(xsCollections.computeMacroscopicGroupConstants, "_getXsMultiplier(multLibNuclide,", "_getXsMultiplier(libNuclide,")
+
+    def merge_props_gamma_before_neutron(self, other):
+        properties.unlockImmutableProperties(other)
+        try:
+            self.neutronDoseConversionFactors = other.neutronDoseConversionFactors
+            self.gammaDoseConversionFactors = other.gammaDoseConversionFactors
+            self.gammaEnergyUpperBounds = other.gammaEnergyUpperBounds
+            self._mergeNeutronEnergies(other)
+        finally:
+            properties.lockImmutableProperties(other)
+
     P = patched
     M = xsCollections.MacroscopicCrossSectionCreator
     mutants = [
@@ -941,6 +1018,11 @@ def selftest():
         ("directory merge gives GAMISO libraries no dummy nuclides", lambda: P(xsLibraries, "mergeXSLibrariesInWorkingDirectory", dir_gamma_without_dummies)),
         ("directory merge never records the reference dummy nuclides", lambda: P(xsLibraries, "mergeXSLibrariesInWorkingDirectory", dir_reference_never_set)),
         ("directory merge reads the ISOxx files in reverse order", lambda: P(xsLibraries, "mergeXSLibrariesInWorkingDirectory", dir_merges_unsorted_last_first)),
+        ("getNuclides(id) looks for the id anywhere in the label", lambda: P(L, "getNuclides", get_nuclides_suffix_anywhere)),
+        ("gamma macros: nuSigF always from the neutron collection", lambda: P(M, "_convertBasicXS", basic_xs_nusigf_always_neutron)),
+        ("macro scatter matrices ignore nucNames / minimumNuclideDensity", lambda: P(M, "_convertScatterMatrices", scatter_from_block_densities)),
+        ("multiplier read from lib although a multLib is given", lambda: P(xsCollections, "computeMacroscopicGroupConstants", cmgc_multiplier_from_lib)),
+        ("_mergeProperties assigns the gamma properties before the neutron check", lambda: P(L, "_mergeProperties", merge_props_gamma_before_neutron)),
         ("removal counts out-scatter below the diagonal only (needs up-scatter)", lambda: P(M, "_computeRemovalXS", removal_below_diagonal_only)),
         ("a multiplier of exactly 0 (ecapt / efiss) is treated as absent = 1", lambda: P(xsCollections, "_getXsMultiplier", xs_multiplier_zero_is_absent)),
         ("multiplier (nu) taken from the first group", lambda: P(xsCollections, "_getXsMultiplier", xs_multiplier_first_group)),
